@@ -126,6 +126,7 @@ MUTANTS["C08"] = [
     ("order_config-startswith-letters", "annet/annlib/patching.py", 'cmd_direct = not row.startswith(reverse_prefix + " ")', 'cmd_direct = not row.startswith(reverse_prefix)'),
     ("sort-drops-duplicate-rows", "annet/annlib/patching.py", '        self.itms.sort(key=operator.attrgetter("sort_key"))', '        self.itms.sort(key=operator.attrgetter("sort_key"))\n        seen = set()\n        self.itms = [i for i in self.itms if not (i.child is None and (i.row, i.sort_key) in seen) and not seen.add((i.row, i.sort_key))]'),
     ("order_reverse-ignored", "annet/annlib/patching.py", '            elif rule["attrs"]["order_reverse"] and not cmd_direct and direct_matched:', '            elif rule["attrs"]["order_reverse"] and not cmd_direct and direct_matched and False:'),
+    ("cisco-vlan-removal-yielded-as-direct-command", "annet/rulebook/cisco/vlandb.py", '            yield (False, "no %s%s%s" % (prefix, " remove " if explicit_changing else " ", ",".join(chunk)), None)', '            yield (True, "no %s%s%s" % (prefix, " remove " if explicit_changing else " ", ",".join(chunk)), None)'),
 ]
 
 MUTANTS["C09"] = [
